@@ -12,6 +12,7 @@ HAS_SIZE = {"getenv", "homedir", "tmpdir", "hostname", "cwd", "fsevent", "fspoll
             "sockname", "peername", "exepath"}
 TRUNCATING = {"exepath", "thread", "errname", "strerror"}
 KNOWN_CWD = "cwd_longer_than_path_max_erange"
+KNOWN_ERRS = set()        # UV_ERRNO_MAP codes, filled from the harness (--list-errs)
 WRAPS = ["getpwuid_r", "gethostname", "if_indextoname", "readlink"]
 ARGV_PAD = 300          # extra argv bytes so that process titles of many lengths fit
 
@@ -53,7 +54,7 @@ def line(getter, args, caps):
 # --------------------------------------------------------------------------
 # case generation, one list per getter group
 # --------------------------------------------------------------------------
-def gen_cases(rng, thorough, base_len, errs):
+def gen_cases(rng, thorough, base_len, errs, exe_len=60):
     g = {}
     full = 600 if thorough else 260          # value lengths swept with every cap
     nbig = 60 if thorough else 16
@@ -204,6 +205,10 @@ def gen_cases(rng, thorough, base_len, errs):
     c.append(line("exepath", [hx(b"")], all_caps(1)))
     for n in biglens(130, 5000)[:8]:
         c.append(line("exepath", [hx(rbytes(rng, n))], edge_caps(rng, n)))
+    # a running executable whose file was unlinked (/proc/self/exe ends in " (deleted)") and one whose
+    # file name really ends in that text: the harness runs a copy of itself
+    c.append(line("exepath", ["deleted"], all_caps(exe_len + 40)))
+    c.append(line("exepath", ["literal"], all_caps(exe_len + 40)))
     g["exepath"] = c
 
     c = []
@@ -219,9 +224,19 @@ def gen_cases(rng, thorough, base_len, errs):
             c.append(line("thread", [hx(rbytes(rng, n, PRINT))], list(range(1, 24))))
     g["thread"] = c
 
-    unknown = [0, 1, -1, 7, 12345, -99999, 2147483647, -2147483648, -4096, -4094, rng.randint(-10**6, 10**6)]
-    g["errname"] = [line("errname", [str(e)], all_caps(30)) for e in errs + unknown]
-    g["strerror"] = [line("strerror", [str(e)], all_caps(60)) for e in errs + unknown]
+    # codes outside UV_ERRNO_MAP, every digit count and both signs; their text is
+    # "Unknown system error " + decimal (up to 32 characters), every size 1..80
+    unknown = [0, 1, -1, 7, 12345, 99999, -99999, -1000000000, -999999999, 1000000000, 2147483647, -2147483647,
+               -2147483648, -4096, -4094]
+    for d in range(1, 11):
+        lo, hi = 10 ** (d - 1), min(10 ** d - 1, 2147483647)
+        unknown += [rng.randint(lo, hi), -rng.randint(lo, hi)]
+    seen = set(errs)
+    unknown = [e for e in unknown if not (e in seen or seen.add(e))]
+    g["errname"] = [line("errname", [str(e)], all_caps(30)) for e in errs] + \
+                   [line("errname", [str(e)], list(range(1, 81))) for e in unknown]
+    g["strerror"] = [line("strerror", [str(e)], all_caps(60)) for e in errs] + \
+                    [line("strerror", [str(e)], list(range(1, 81))) for e in unknown]
     return g
 
 
@@ -288,6 +303,9 @@ def check_call(g, tv, abstract, cap, rc, size, bufhex, first, defects):
             return "result is not a prefix of the true value (cap %d)" % cap
         if g in HAS_SIZE and size != k:
             return "reported length %d but the returned string has %d bytes (cap %d)" % (size, k, cap)
+        if k != min(n, cap - 1):
+            return ("returned text is not the prefix of the true value that fits the size: %d bytes returned, "
+                    "%d of the %d fit into %d" % (k, min(n, cap - 1), n, cap))
         return None
     if rc == 0:
         if g in HAS_SIZE and size != n:
@@ -319,6 +337,13 @@ def make_monitor(defects):
         oracle = case.split("## oracle:")[1]
         defects.case = case
         g, tv, abstract = true_value(oracle)
+        if g in ("errname", "strerror") and KNOWN_ERRS:
+            err = int(case.split()[1])
+            if err not in KNOWN_ERRS:                 # computed here, not taken from the harness
+                want = ("Unknown system error %d" % err).encode()
+                if tv != want:
+                    return "harness oracle for unknown code %d is %r, expected %r" % (err, tv, want)
+                tv = want
         for tok in impl.split():
             if "DIED:" in tok or tok.endswith("SEGV"):
                 return "write beyond the end of the buffer (SIGSEGV on the guard page) at %s" % tok
@@ -497,6 +522,7 @@ def main():
     work = os.path.realpath(os.path.join(chk.scratch.dir, "w"))
     os.makedirs(work, exist_ok=True)
     errs = [int(x) for x in vf.sh([exe, "--list-errs"]).stdout.split()]
+    KNOWN_ERRS.update(errs)
     if len(errs) < 50:
         chk.violation("harness could not list UV_ERRNO_MAP", {"kind": "build"}, found_input=False)
         chk.finish(rule="harness failed")
@@ -510,7 +536,7 @@ def main():
         names = ["getenv", "homedir", "tmpdir", "hostname", "cwd", "fsevent", "fspoll", "ifname", "sockname",
                  "peername", "exepath", "title", "thread", "errname", "strerror"]
         base_len = {k: len(os.path.join(work, k)) for k in names}
-        groups = gen_cases(chk.rng, thorough, base_len["cwd"], errs)
+        groups = gen_cases(chk.rng, thorough, base_len["cwd"], errs, base_len["exepath"] + 30)
         cdir = os.path.join(vf.VERIF, "corpus", "C19")
         if os.path.isdir(cdir):
             for fn in sorted(os.listdir(cdir)):
